@@ -247,6 +247,19 @@ def run(repo, rep):
         skv, hops = tup[skv.id], hops + 1
     if not (isinstance(skv, ast.Tuple) and len(skv.elts) == 4):
         raise AnalysisError("calc_padding_and_skirt: skirt tuple not found")
+    # locals assigned exactly once from an expression (bottom_skirt = ypad - top_pad) are read through
+    once = {}
+    for x in ast.walk(cps):
+        if isinstance(x, ast.Assign) and len(x.targets) == 1 and isinstance(x.targets[0], ast.Name):
+            once.setdefault(x.targets[0].id, []).append(x.value)
+        elif isinstance(x, (ast.Assign, ast.AugAssign, ast.For)):
+            for t_ in ast.walk(x.targets[0] if isinstance(x, ast.Assign) else x.target):
+                if isinstance(t_, ast.Name):
+                    once.setdefault(t_.id, []).extend([None, None])
+    from ..astutil import substitute
+
+    inl = {k_: v_[0] for k_, v_ in once.items() if len(v_) == 1 and v_[0] is not None and isinstance(v_[0], (ast.BinOp, ast.UnaryOp)) and k_ not in ("ypad", "xpad")}
+    skv = ast.Tuple(elts=[substitute(e_, inl) for e_ in skv.elts], ctx=ast.Load())
     sk = [skv]
     pad_total = poly(ast.BinOp(left=sk[0].elts[0], op=ast.Add(), right=sk[0].elts[2]))
     pad_total_w = poly(ast.BinOp(left=sk[0].elts[1], op=ast.Add(), right=sk[0].elts[3]))
